@@ -650,6 +650,31 @@ def cursor_rule(rep, rule, mod):
     for n, gid in enumerate(geps):
         g = f.insts[gid]
         ok = gid not in cf.fail
+        if not ok:
+            us = [u for u in f.users(V({'k': 'inst', 'id': gid})) if u.op != 'dbg']
+            if us and all(u.op == 'select' and u.ops[0].key() != ('i', gid) for u in us):
+                # `stop = c == 0 ? format : format + 1`: the advanced cursor is only computed, a select decides whether it is
+                # used; the dataflow follows branches, not selects
+                rep.defer_broken(AnalysisBroken('__printf: the cursor advance at %s is one arm of a select (R-CURSOR follows '
+                                                'branches only)' % g.where()))
+                continue
+        if not ok:
+            loops = [L for L in f.loops if g.block in L['blocks']]
+            if loops:
+                L = min(loops, key=lambda l: len(l['blocks']))
+                ptr_ne = False
+                for (b_, _) in L['exits']:
+                    t = b_.term
+                    c = f.inst_of(t.ops[0]) if t.op == 'br' and 'f' in t.d and t.ops else None
+                    if c is not None and c.op == 'icmp' and c.pred in ('eq', 'ne') and \
+                            all(o.k in ('inst', 'arg') and o.key() in cf.cur for o in c.ops):
+                        ptr_ne = True
+                if ptr_ne:
+                    # `while (begin != stop) emit(*begin++)`: the walk is bounded by equality with another cursor; the dataflow
+                    # knows orderings established by `<` / `<=` tests and by character tests only
+                    rep.defer_broken(AnalysisBroken('__printf: the cursor walk at %s is bounded by `!=` against another cursor '
+                                                    '(R-CURSOR does not follow that form)' % g.where()))
+                    continue
         base = f.var_name(g.ops[0]) or 'cursor'
         rep.inst(rule, '__printf', 'advance#%d of %s' % (n + 1, base), ok, g.where(),
                  None if ok else cf.fail[gid] + ' (an incomplete directive at the end of the format, or a scan loop '
